@@ -166,7 +166,9 @@ type hist struct {
 	nid   int64
 	open  map[int]*disInt
 	bad   bool
-	stop  bool // end the history after this step (a violation left the model and the gateway apart)
+	// reenabled[e]: server e went through an "enable" step in its current incarnation
+	reenabled map[int]bool
+	stop      bool // end the history after this step (a violation left the model and the gateway apart)
 	modes []bed.HealthMode
 	// modeLog[e] = the /healthz mode changes of stub e with their instants
 	modeLog [][]modeEv
@@ -253,51 +255,79 @@ func (h *hist) waitReady(e int, want bool) bool {
 	return true
 }
 
-// waitUnreadyAfterFailingProbes waits until the endpoint reports not ready after its stub stopped answering /healthz
-// (hang: never answers, the checker's 5 s timeout ends the probe; close: the connection is closed, client-go retries until
-// the same timeout). The wait is not only a watchdog: when the stub has logged at least two probes that were started at
-// least 6 s ago (the probe timeout is 5 s) and at least 11 s have passed since the mode change, no probe has been
-// answered since, and the endpoint STILL reports ready, the statement is contradicted directly ("healthy at the moment
-// it was picked", probe outcomes include timeouts): violation, and the history ends after one more stable burst that
-// shows the traffic still going there.
-func (h *hist) waitUnreadyAfterFailingProbes(e int, since int64, mode bed.HealthMode) bool {
+// waitBelief waits until the endpoint's readiness follows what its stub has been answering on /healthz since `since`
+// (want=false: 500 / hang / connection closed; want=true: 200, endpoint enabled). It is not only a watchdog: it calls
+// TriggerHealthCheck every 500 ms (so the next probe starts as soon as the previous one has given up) and turns two
+// situations in which the statement is contradicted directly into verdicts instead of a harness timeout:
+//   - probe timeouts: the stub does not answer (hang / close); at least two probes that started >= 6 s ago (probe
+//     timeout 5 s) were never answered, >= 11 s have passed, and the endpoint still reports ready;
+//   - not probed: >= 11 s (two periods of the 5 s ticker) have passed, the harness called TriggerHealthCheck >= 5 times,
+//     the stub received NO probe of this gateway at all since the change, and the readiness is still the old one (an
+//     unhealthy endpoint still served; or an enabled, healthy endpoint never served again).
+// After such a verdict the history ends with one more stable burst that shows where the traffic goes.
+func (h *hist) waitBelief(e int, since int64, mode bed.HealthMode, want bool) bool {
 	ep := h.endpoint(e)
 	if ep == nil {
 		h.fail(fmt.Sprintf("endpoint %d not found", e))
 		return false
 	}
 	lastPoke := bed.Now()
+	pokes := 0
 	deadline := bed.Now() + int64(watchdog)
 	for {
-		if !ep.IsReady() {
-			h.r.Count("unanswered_probe_flips_that_made_the_endpoint_unready", 1)
+		if ep.IsReady() == want {
+			if !want {
+				h.r.Count("unhealthy_flips_that_made_the_endpoint_unready", 1)
+			}
 			return true
 		}
 		now := bed.Now()
-		old := 0
+		old, n := 0, 0
 		var ages []float64
 		for _, t := range h.probes(e) {
 			if t >= since {
+				n++
 				ages = append(ages, float64(now-t)/1e9)
 				if now-t >= int64(6*time.Second) {
 					old++
 				}
 			}
 		}
-		if old >= 2 && now-since >= int64(11*time.Second) {
+		w := map[string]interface{}{"history": h.id, "stub": e, "healthz_mode": modeName[mode], "seconds_since_change": float64(now-since) / 1e9,
+			"probe_ages_s": ages, "trigger_calls": pokes, "endpoint_was_disabled_and_enabled_before": h.reenabled[e], "model": h.m.clone()}
+		if !want && (mode == bed.HealthHang || mode == bed.HealthClose) && old >= 2 && now-since >= int64(11*time.Second) {
 			h.r.Violation("C03/health/still-ready-after-probe-timeouts",
 				fmt.Sprintf("the stub stopped answering /healthz (%s mode) %.1f s ago; %d probes that started more than 6 s ago (probe timeout 5 s) were never answered, no probe was answered since, and the endpoint still reports ready",
-					modeName[mode], float64(now-since)/1e9, old),
-				map[string]interface{}{"history": h.id, "stub": e, "healthz_mode": modeName[mode], "seconds_since_mode_change": float64(now-since) / 1e9, "probe_ages_s": ages, "model": h.m.clone()})
+					modeName[mode], float64(now-since)/1e9, old), w)
+			h.stop = true
+			return true
+		}
+		if n == 0 && pokes >= 5 && now-since >= int64(11*time.Second) {
+			sig := "C03/health/not-probed"
+			if h.reenabled[e] {
+				sig += "-after-re-enable"
+			}
+			what := fmt.Sprintf("the stub has been answering /healthz with %s for %.1f s, TriggerHealthCheck was called %d times and two periods of the health ticker have passed, but the stub received no probe at all and the endpoint still reports ready (it keeps being picked)",
+				modeName[mode], float64(now-since)/1e9, pokes)
+			if want {
+				sig += "/never-ready-again"
+				what = fmt.Sprintf("the endpoint is enabled and its stub has been answering /healthz with 200 for %.1f s, TriggerHealthCheck was called %d times and two periods of the health ticker have passed, but the stub received no probe at all and the endpoint never reports ready",
+					float64(now-since)/1e9, pokes)
+			}
+			if h.reenabled[e] {
+				what += " (the endpoint had been disabled and enabled again before)"
+			}
+			h.r.Violation(sig, what, w)
 			h.stop = true
 			return true
 		}
 		if now > deadline {
-			h.fail(fmt.Sprintf("endpoint %d did not report ready=false within the %v watchdog and fewer than 2 timed-out probes were logged", e, watchdog))
+			h.fail(fmt.Sprintf("endpoint %d did not report ready=%v within the %v watchdog (%d probes since the change)", e, want, watchdog, n))
 			return false
 		}
 		if now-lastPoke > int64(500*time.Millisecond) {
-			ep.TriggerHealthCheck() // start the next probe as soon as the previous one has given up
+			ep.TriggerHealthCheck()
+			pokes++
 			lastPoke = now
 		}
 		time.Sleep(2 * time.Millisecond)
@@ -484,10 +514,7 @@ func (h *hist) genChange(g *vkit.Rand, allowHang bool, tickerWait bool) *change 
 					ep.TriggerHealthCheck()
 				}
 				if old != healthyMode(nm) {
-					if nm == bed.HealthHang || nm == bed.HealthClose {
-						return h.waitUnreadyAfterFailingProbes(e, since, nm)
-					}
-					return h.waitReady(e, healthyMode(nm))
+					return h.waitBelief(e, since, nm, healthyMode(nm))
 				}
 				return true
 			}}
@@ -536,12 +563,14 @@ func (h *hist) genChange(g *vkit.Rand, allowHang bool, tickerWait bool) *change 
 				if di := h.open[e]; di != nil {
 					h.closeInterval(di, bed.Now())
 				}
+				since := bed.Now()
 				if !h.apply(after) {
 					return false
 				}
+				h.reenabled[e] = true
 				if healthyMode(h.modes[e]) {
-					// also shows that probing is restarted by the enabling sync (watchdog = inconclusive)
-					return h.waitReady(e, true)
+					// also shows that probing is restarted by the enabling sync
+					return h.waitBelief(e, since, h.modes[e], true)
 				}
 				return true
 			}}
@@ -571,6 +600,7 @@ func (h *hist) genChange(g *vkit.Rand, allowHang bool, tickerWait bool) *change 
 					h.closeInterval(di, bed.Now()) // it was removed earlier: judge the time it was not listed
 				}
 				h.setMode(e, nm) // not a server yet: invisible to the gateway
+				delete(h.reenabled, e)
 				if !h.apply(after) {
 					return false
 				}
@@ -675,7 +705,7 @@ func (h *hist) close() {
 }
 
 func newHist(r *vkit.R, id, k int) *hist {
-	h := &hist{r: r, id: id, k: k, host: fmt.Sprintf("c03-%d.test", id), open: map[int]*disInt{}, modes: make([]bed.HealthMode, k), modeLog: make([][]modeEv, k)}
+	h := &hist{r: r, id: id, k: k, host: fmt.Sprintf("c03-%d.test", id), open: map[int]*disInt{}, reenabled: map[int]bool{}, modes: make([]bed.HealthMode, k), modeLog: make([][]modeEv, k)}
 	for i := 0; i < k; i++ {
 		h.stubs = append(h.stubs, bed.NewStub(fmt.Sprintf("h%d-s%d", id, i)))
 	}
@@ -992,7 +1022,7 @@ func probeTimeoutScenario(r *vkit.R, id int, g *vkit.Rand) {
 	if ep := h.endpoint(1); ep != nil && g.Bool() {
 		ep.TriggerHealthCheck() // otherwise the 5 s ticker finds out
 	}
-	if !h.waitUnreadyAfterFailingProbes(1, since, nm) {
+	if !h.waitBelief(1, since, nm, false) {
 		return
 	}
 	after := m.clone()
@@ -1002,6 +1032,72 @@ func probeTimeoutScenario(r *vkit.R, id int, g *vkit.Rand) {
 	h.stableBurst(g, 16, 1)
 	r.Count("probe_timeout_scenarios", 1)
 	h.judge([]string{"two healthy endpoints", "stub1 /healthz -> " + modeName[nm], "wait until the endpoint is not ready", "stable burst"})
+}
+
+// reenableScenario: two healthy endpoints; one is disabled and enabled again (its stub stays healthy, so it is ready at
+// once); later its /healthz turns unhealthy (500, or the mirror: it was unhealthy, and turns healthy after the re-enable):
+// the gateway must find out (probing was restarted by the enabling sync) and stop / start serving it.
+func reenableScenario(r *vkit.R, id int, g *vkit.Rand) {
+	h := newHist(r, id, 2)
+	defer h.close()
+	h.np = 1
+	mirror := id%4 == 3
+	m := &model{Servers: []int{0, 1}, Disabled: map[int]bool{}, Belief: map[int]bool{0: true, 1: !mirror}, Mode: map[int]string{0: "ok", 1: "ok"}, Subsets: [][]int{nil}}
+	h.setMode(0, bed.HealthOK)
+	h.setMode(1, bed.HealthOK)
+	if mirror {
+		h.setMode(1, bed.Health500)
+		m.Mode[1] = "500"
+	}
+	h.m = m
+	if !h.apply(m) || !h.waitReady(0, true) {
+		return
+	}
+	if !mirror && !h.waitReady(1, true) {
+		return
+	}
+	if mirror {
+		// the first probe of the new endpoint must have been answered (500) before the endpoint is disabled
+		if !vkit.WaitFor(watchdog, func() bool { return len(h.probes(1)) > 0 }) {
+			h.fail("first probe did not reach the stub")
+			return
+		}
+		time.Sleep(20 * time.Millisecond)
+	}
+	dis := m.clone()
+	dis.Disabled[1] = true
+	if !h.apply(dis) {
+		return
+	}
+	h.m = dis
+	time.Sleep(time.Duration(g.Range(5, 60)) * time.Millisecond)
+	h.stableBurst(g, 6, 0)
+	if !h.apply(m) {
+		return
+	}
+	h.m = m
+	h.reenabled[1] = true
+	time.Sleep(time.Duration(g.Range(5, 60)) * time.Millisecond)
+	h.stableBurst(g, 6, 1)
+	since := bed.Now()
+	nm := bed.Health500
+	if mirror {
+		nm = bed.HealthOK
+	}
+	h.setMode(1, nm)
+	if ep := h.endpoint(1); ep != nil {
+		ep.TriggerHealthCheck()
+	}
+	if !h.waitBelief(1, since, nm, mirror) {
+		return
+	}
+	after := m.clone()
+	after.Belief[1] = mirror
+	after.Mode[1] = modeName[nm]
+	h.m = after
+	h.stableBurst(g, 16, 2)
+	r.Count("reenable_scenarios", 1)
+	h.judge([]string{"two endpoints", "disable stub1", "enable stub1", "stub1 /healthz -> " + modeName[nm], "wait until the readiness follows", "stable burst"})
 }
 
 // disableRacingProbes: probe outcomes are being recorded WHILE the disabling spec update is applied. Several goroutines
@@ -1127,14 +1223,17 @@ func TestCheck(t *testing.T) {
 		hung := tierN(r, 12, 40)
 		racers := tierN(r, 6, 12)
 		timeouts := tierN(r, 4, 16)
+		reenables := tierN(r, 4, 16)
 		racerIters := tierN(r, 800, 2000)
 		vkit.Sched.Enable(uint64(r.Seed), 0.02, 0.01, 0.0005)
 		// server-list churn under concurrent picks (see churn_test.go); runs first so that a fatal error shows up early
 		churn := tierN(r, 6, 40)
 		churnIters := tierN(r, 3000, 20000)
 		r.Parallel(churn, 6, func(i int, g *vkit.Rand) { serverListChurn(r, g, churnIters) })
+		// a change applied between MatchAttributes and Pop (see pickaftersync_test.go)
+		pickAfterSync(r)
 		r.Require(r.Counter("churn_picks_concurrent_with_changes") > 1000, "too few picks concurrent with server-list changes")
-		r.Parallel(n+hung+racers+timeouts, 16, func(i int, g *vkit.Rand) {
+		r.Parallel(n+hung+racers+timeouts+reenables, 16, func(i int, g *vkit.Rand) {
 			if p := vkit.Safely(func() {
 				// the scenarios that wait for probe timeouts (5..11 s) start first
 				if i < timeouts {
@@ -1142,6 +1241,11 @@ func TestCheck(t *testing.T) {
 					return
 				}
 				i -= timeouts
+				if i < reenables {
+					reenableScenario(r, 200000+i, g)
+					return
+				}
+				i -= reenables
 				if i >= n+hung {
 					disableRacingProbes(r, i, g, racerIters)
 					return
@@ -1171,6 +1275,7 @@ func TestCheck(t *testing.T) {
 		r.Require(r.Counter("disabled_intervals_judged") >= int64(tierN(r, 40, 500)), "too few disabled intervals judged")
 		r.Require(r.Counter("disabled_triggers") >= int64(tierN(r, 60, 900)), "too few TriggerHealthCheck calls on disabled endpoints")
 		r.Require(r.Counter("hung_probe_scenarios") >= int64(hung*8/10), "too few hung-probe scenarios completed")
+		r.Require(r.Counter("reenable_scenarios") >= int64(reenables*3/4), "too few disable/enable/health-change scenarios completed")
 		r.Require(r.Counter("probe_timeout_scenarios") >= int64(timeouts*3/4), "too few probe-timeout scenarios completed")
 		r.Require(r.Counter("racing_disable_iterations") >= int64(racers*racerIters*8/10), "too few disable-while-recording-probe-results iterations")
 		r.Require(r.Counter("partially_failing_updates") >= int64(tierN(r, 10, 150)), "too few partially failing updates (server removed + unbuildable server added)")
